@@ -1,4 +1,6 @@
 mod core;
+mod crash;
+mod par;
 mod explore;
 mod props;
 mod report;
@@ -35,6 +37,10 @@ fn main() {
                     world::install_seq_hooks();
                     props::c04::run(tier)
                 }
+                "C03" => {
+                    world::install_seq_hooks();
+                    props::c03::run(tier)
+                }
                 other => {
                     eprintln!("unknown property {other}");
                     2
@@ -62,6 +68,10 @@ fn main() {
                 "C04" => {
                     world::install_seq_hooks();
                     props::c04::replay(&v)
+                }
+                "C03" => {
+                    world::install_seq_hooks();
+                    props::c03::replay(&v)
                 }
                 other => {
                     eprintln!("unknown property {other}");
